@@ -181,6 +181,22 @@ func (e *consEnv) settle(p *hpeer) {
 	}
 }
 
+// awaitPeerRoutines: once a peer is gone, its three routines must end (they poll peer.IsRunning every loop).
+func (e *consEnv) awaitPeerRoutines(p *hpeer) {
+	cnt, ok := e.dead[p.id]
+	if !ok {
+		return
+	}
+	deadline := time.Now().Add(leakSettle)
+	for atomic.LoadInt32(cnt) < 3 {
+		if time.Now().After(deadline) {
+			e.t.Fatalf("per-peer routines of the consensus reactor still alive %v after the peer was removed (%d of 3 ended)\n%s", leakSettle, atomic.LoadInt32(cnt), allStacks())
+		}
+		time.Sleep(200 * time.Microsecond)
+	}
+	delete(e.dead, p.id)
+}
+
 func (e *consEnv) sendDummy() bool {
 	tm := time.NewTimer(receiveWait)
 	defer tm.Stop()
